@@ -412,6 +412,7 @@ def history_judge(case, impl_line, prop):
     shared_ever = set()       # elementary pids that two program maps listed at the same time (finding F7)
     stale = {}                # pid -> (table pid that dropped it, forbidden request kind)
     prev_last = {}            # table pid -> last packet of the previous transmission on it
+    assigned = {}             # pid -> the request of the table application that listed it last (the later application wins)
     applied_first = {}        # table pid -> first packet of the transmission last applied (or last re-applied)
     resets = {}               # table pid -> packets in which a section header straddles the packet boundary (F9)
     known = None
@@ -443,6 +444,7 @@ def history_judge(case, impl_line, prop):
                 elif got != exp and prop == "C05":
                     return ("violation", f"table on PID {pid} version {ver}: requests {got} differ from the entries {exp}")
                 ideal_ver[pid] = ver; started_not_applied[pid] = set(); applied_first[pid] = rc["first"]
+                for e_ in exp: assigned[e_[1] if e_[0] != "bystream" else e_[3]] = e_
                 if pid == 0:
                     for (n, q) in ideal_pat:
                         if q not in [x[1] for x in rc["pat"]]: stale[q] = (0, "nit" if n == 0 else "pmt")
@@ -483,6 +485,7 @@ def history_judge(case, impl_line, prop):
                     for (t, ep) in ss:
                         if ep == X: exp.append(("bystream", pp, t, X)); owners.append(pp)
             bad = None
+            if len(exp) >= 2 and assigned.get(X) in exp: exp = [assigned[X]]      # a PID with two roles: the later application wins
             if exp:
                 if req not in exp: bad = f"the latest valid PAT/PMT call for {exp}"
             elif X in stale:
